@@ -103,13 +103,14 @@ def r20_1(ctx):
     ctx.ob("R20.1", "Position::from_index:clamp", okc, pf.loc(), "Position::from_index clamps the index to the slice length before scanning")
     # the scan compares against the newline byte only
     bytes_cmp = set()
-    for b, t in pf.terms():
-        if t["k"] == "switch" and t.get("dty") == "u8":
-            bytes_cmp |= {int(v) for v, _ in t["targets"]}
-    for b, i, st in pf.assigns():
-        rv = st["rv"]
-        if rv["k"] == "binop" and rv["op"] in ("Eq", "Ne") and "u8" in (rv["a"].get("ty"), rv["b"].get("ty")):
-            bytes_cmp |= {x for x in (op_int(rv["a"]), op_int(rv["b"])) if x is not None}
+    for g in prog.with_closures(pf):     # the predicate of filter / position / rposition is a closure of the function
+        for b, t in g.terms():
+            if t["k"] == "switch" and t.get("dty") == "u8":
+                bytes_cmp |= {int(v) for v, _ in t["targets"]}
+        for b, i, st in g.assigns():
+            rv = st["rv"]
+            if rv["k"] == "binop" and rv["op"] in ("Eq", "Ne") and "u8" in (rv["a"].get("ty"), rv["b"].get("ty")):
+                bytes_cmp |= {x for x in (op_int(rv["a"]), op_int(rv["b"])) if x is not None}
     ctx.ob("R20.1", "Position::from_index:newline", bytes_cmp == {10}, pf.loc(), f"line breaks are recognised by byte(s) {sorted(bytes_cmp)}")
 
 
@@ -144,7 +145,10 @@ def r20_2(ctx):
         n += 1
         direct = [x for x in sources if x[0] == "direct"]
         locs = [x[0] for x in sources if x[0] != "direct"]
-        bad, tainted = error_taint(f, locs, sanitizers=("fix_position", "error"))
+        def closure_calls(fid, names):      # the positioning may sit in a closure handed to map_err / or_else
+            g = prog.fns.get(fid)
+            return g is not None and any(callee_is(tt, *names) for bb, tt in g.calls())
+        bad, tainted = error_taint(f, locs, sanitizers=("fix_position", "error"), closure_calls=closure_calls)
         ok = not bad and not direct
         where = f.loc((direct[0][2] if direct else (bad[0][1] if bad else sources[0][2])).get("ln"))
         ctx.ob("R20.2", f"{f.name}", ok, where,
@@ -291,26 +295,32 @@ def r20_6(ctx):
     ctx.ob("R20.6", "parse_with_padding:rebase-over-input", okj, f.loc(), "rebase is given the caller's json")
     # rebase itself: index == len is a position inside the input (EOF errors); only index > len is left alone
     r = prog.find("Error::rebase")
+    # rebase, the private helpers of Error it delegates to, and the closures of both
+    cluster = list(prog.with_closures(r))
+    for b, t in r.calls():
+        g = prog.fns.get(t["callee"])
+        if g is not None and g is not r and (g.impl or {}).get("self_ty") == (r.impl or {}).get("self_ty") and not callee_is(t, "Error::syntax"):
+            cluster += [x for x in prog.with_closures(g) if x not in cluster]
     cmps = []
-    for b, i, s in r.assigns():
-        rv = s["rv"]
-        if rv["k"] == "binop" and rv["op"] in ("Gt", "Ge", "Lt", "Le"):
-            la, lb = op_local(rv["a"]), op_local(rv["b"])
-            if la is None or lb is None:
-                continue
-            a_leaves = backward_slice(r, [la])[1]
-            b_leaves = backward_slice(r, [lb])[1]
-            a_idx = any(lf[0] == "place" and "index" in [e[2] for e in lf[1][1] if isinstance(e, list) and e[0] == "."] for lf in a_leaves)
-            b_idx = any(lf[0] == "place" and "index" in [e[2] for e in lf[1][1] if isinstance(e, list) and e[0] == "."] for lf in b_leaves)
-            a_len = any(lf[0] == "call" and callee_is(lf[2], "len") for lf in a_leaves)
-            b_len = any(lf[0] == "call" and callee_is(lf[2], "len") for lf in b_leaves)
-            if a_idx and b_len:
-                cmps.append(rv["op"])
-            elif a_len and b_idx:
-                cmps.append({"Gt": "Lt", "Ge": "Le", "Lt": "Gt", "Le": "Ge"}[rv["op"]])
+    for h in cluster:
+        for b, i, s in h.assigns():
+            rv = s["rv"]
+            if rv["k"] == "binop" and rv["op"] in ("Gt", "Ge", "Lt", "Le"):
+                la, lb = op_local(rv["a"]), op_local(rv["b"])
+                if la is None or lb is None:
+                    continue
+                a_leaves = backward_slice(h, [la])[1]
+                b_leaves = backward_slice(h, [lb])[1]
+                # the error's index: its field, or (inside a closure of the family) the closure's own argument
+                is_idx = lambda lv: any((lf[0] == "place" and "index" in [e[2] for e in lf[1][1] if isinstance(e, list) and e[0] == "."]) or (h.parent_fn and lf[0] == "param" and lf[1] >= 2) for lf in lv)
+                is_len = lambda lv: any(lf[0] == "call" and callee_is(lf[2], "len") for lf in lv)
+                if is_idx(a_leaves) and is_len(b_leaves) and not is_len(a_leaves):
+                    cmps.append(rv["op"])
+                elif is_len(a_leaves) and is_idx(b_leaves) and not is_len(b_leaves):
+                    cmps.append({"Gt": "Lt", "Ge": "Le", "Lt": "Gt", "Le": "Ge"}[rv["op"]])
     okc = bool(cmps) and all(c in ("Gt", "Le") for c in cmps)
     ctx.ob("R20.6", "rebase:boundary", okc, r.loc(), f"rebase compares index with len using {cmps}: index == len (an EOF error) is re-rendered, only index > len is left alone" if okc else f"rebase compares index with len using {cmps}: an error at index == len keeps the position computed over the private copy")
-    sy = [(b, t) for b, t in r.calls() if callee_is(t, "Error::syntax")]
+    sy = [(b, t) for h in cluster for b, t in h.calls() if callee_is(t, "Error::syntax")]
     ctx.ob("R20.6", "rebase:re-renders", bool(sy), r.loc(), "rebase re-renders through Error::syntax over the given text")
 
 
